@@ -43,7 +43,7 @@ def generate(module, wd, seed, tier, rep, invariants, rand=None):
     """One TLC run of SpecAll (exhaustive one-equation family + LCG chains) of Incremental.tla / Stateful.tla:
     role A invariants and case emission together.  Returns the list of cases."""
     if rand is None:
-        rand = dict(nchains=40, nper=1, arith=12) if tier == "quick" else dict(nchains=96, nper=5, arith=32)
+        rand = dict(nchains=30, nper=1, arith=9) if tier == "quick" else dict(nchains=96, nper=5, arith=32)
     cfg = os.path.join(wd, "Gen.cfg")
     write_cfg(cfg, "SpecAll", seed, rand["nchains"], rand["nper"], rand["arith"], 4, 1, 2, invariants)
     a = vlib.run_tlc(module, cfg, wd, tag="gen", timeout=2400)
@@ -135,17 +135,6 @@ def check_case(case, seed, n_eager):
                                   why="tagged NoChange but EvalProg varies over the Unknown inputs"))
 
     tags_seen = {}
-    # eager: a seeded subset of (tagging, valuation)
-    for t in (T if n_eager >= len(T) else rng.sample(T, n_eager)):
-        n = rng.randrange(len(inputs))
-        try:
-            out = _observe(incremental(f)(None, inputs[n], _tangents(t, k)))
-        except Exception as e:  # noqa: BLE001
-            fails.append(dict(clause="C09.primal", mode="eager", t=t, n=n, why="raised:" + type(e).__name__, error=repr(e)[:300]))
-            stats["calls"] += 1
-            continue
-        judge("eager", t, n, out)
-
     # jit: every tagging x every valuation; one compilation per program (ordinary f and all taggings together)
     def everything(*a):
         return f(*a), tuple(incremental(f)(None, a, _tangents(t, k)) for t in T)
@@ -178,6 +167,19 @@ def check_case(case, seed, n_eager):
             except Exception as e:  # noqa: BLE001
                 fails.append(dict(clause="C09.primal", mode="jit", t=t, n=-1, why="raised:" + type(e).__name__, error=repr(e)[:300]))
                 stats["calls"] += 1
+    if stats["skipped_call"] or machinery:
+        return dict(fails=[], machinery=machinery, stats=stats)
+    # eager: a seeded subset of (tagging, valuation)
+    for t in (T if n_eager >= len(T) else rng.sample(T, n_eager)):
+        n = rng.randrange(len(inputs))
+        try:
+            out = _observe(incremental(f)(None, inputs[n], _tangents(t, k)))
+        except Exception as e:  # noqa: BLE001
+            fails.append(dict(clause="C09.primal", mode="eager", t=t, n=n, why="raised:" + type(e).__name__, error=repr(e)[:300]))
+            stats["calls"] += 1
+            continue
+        judge("eager", t, n, out)
+
     for t, ts in tags_seen.items():
         stats["taggings"] += 1
         if len(ts) != nout:
